@@ -5,6 +5,7 @@
   (minus the reserved OPT/TSIG), each with an RDLENGTH field that leads to the next one.
 -/
 import QV.Proofs.WriterItems
+import QV.Proofs.WriterPhys
 import QV.Proofs.WriterHeader
 import QV.Proofs.WriterLayout
 import QV.Proofs.WriterSect
@@ -300,7 +301,8 @@ theorem slay_addRrsetOp (sec : RrSection) (hint : Hint) (owner : WName) (ty cls 
 theorem addQuestionBody_item (qn : WName) (qt qc : Nat) (s s' : State) (hw : WInv s) (hwf : qn.WF)
     (h : addQuestionBody qn qt qc s = (.ok (), s')) :
     ∃ k, Item s' s.cursor k ∧ s'.cursor = s.cursor + k + 4 ∧ NameIs s' s.cursor s.mode qn ∧
-      BytesAt s'.octets (s.cursor + k) (u16be qt ++ u16be qc) := by
+      BytesAt s'.octets (s.cursor + k) (u16be qt ++ u16be qc) ∧
+      (∀ g, g ∈ s'.gLabels → g ∈ s.gLabels ∨ PhysLab s'.octets s.cursor g) := by
   unfold addQuestionBody at h
   obtain ⟨_, sA, hA, h⟩ := M.bind_ok_inv h
   obtain ⟨p, sB, hB, h⟩ := M.bind_ok_inv h
@@ -314,11 +316,12 @@ theorem addQuestionBody_item (qn : WName) (qt qc : Nat) (s s' : State) (hw : WIn
   have hs := writeUnhintedName_spec qn _ wA hwf
   have hf := frame_writeUnhintedName qn { s with gCtx := .qname }
   rw [hB] at hs hf
-  obtain ⟨_, _, _, _, _, ⟨ls, hrd, hmtB⟩, hck⟩ := hs.ok p rfl
+  obtain ⟨_, _, _, _, _, ⟨ls, hrd, hmtB⟩, hck, hprovB, hdisB⟩ := hs.ok p rfl
   have hcurB : s.cursor ≤ sB.cursor := hf.cur
-  simp only at hck hrd hcurB hmtB
+  simp only at hck hrd hcurB hmtB hprovB hdisB
   have itB : Item sB s.cursor (sB.cursor - s.cursor) := item_of_reads hrd hck (by omega)
   have nmB : NameIs sB s.cursor s.mode qn := nameIs_of_reads hrd hmtB
+    (fun hm => rootEndB_of_wire hwf (hdisB hm).1 (by have := (hdisB hm).2; omega))
   unfold tryPushU16 at hE hF
   obtain ⟨eE, zE⟩ := tryPush_ok_inv hE
   obtain ⟨eF, zF⟩ := tryPush_ok_inv hF
@@ -339,7 +342,14 @@ theorem addQuestionBody_item (qn : WName) (qt qc : Nat) (s s' : State) (hw : WIn
     rw [eF, eE]
     show g ∈ sD.gLabels
     rw [gD]; exact hg
-  refine ⟨sB.cursor - s.cursor, ?_, by omega, ?_, ?_⟩
+  have gF' : s'.gLabels = sB.gLabels := by rw [eF, eE]; exact gD
+  refine ⟨sB.cursor - s.cursor, ?_, by omega, ?_, ?_, ?prov⟩
+  case prov =>
+    intro g hg
+    rw [gF'] at hg
+    rcases hprovB g hg with h1 | h1
+    · exact Or.inl h1
+    · exact Or.inr (physLab_frame hck h1 (fun i _ h2 => preF i (by omega)))
   · exact item_move (lo := 0) itB (fun _ _ => Nat.zero_le _) (fun i _ hi => preF i (by omega)) (by omega)
       (fun g hg _ => gF g hg)
   · exact nameIs_frame (lo := 0) nmB (fun _ _ => Nat.zero_le _) (fun i _ hi => preF i hi) (by omega) gF
